@@ -83,6 +83,8 @@ AXES_THOROUGH = [
     # reads of ANOTHER file with list-valued policies before the two reads that are compared (nothing they do may
     # carry over into a later default read)
     ("prelude", [None, "null-list", "read-list", "both-lists"]),
+    # the ~Well NULL value (the spellings palette holds 0-valued, 7-valued and -999.25 cells)
+    ("null", ["-999.25", "0", "7", "0.0"]),
 ]
 CORE = ["rows", "cols", "before", "after", "follows", "eol", "final_nl"]
 DEV = {"quick": 3, "thorough": 4}
@@ -121,7 +123,7 @@ def build_text(pt):
         curves = curves + [("CX", "", "", "declared without a column")]
     pre = {
         "V": lasgen.version_section("2.0", "NO", dlm=pt.get("dlm")),
-        "W": lasgen.well_section("-999.25", extra=[lasgen.item_line("WELL", "", "w1", "well")]),
+        "W": lasgen.well_section(pt.get("null", "-999.25"), extra=[lasgen.item_line("WELL", "", "w1", "well")]),
         "C": lasgen.curve_section(curves),
         "P": ["~Parameter", lasgen.item_line("P1", "", "3", "p")],
     }
@@ -213,7 +215,7 @@ def check_point(pt):
         try:
             got = las_a.data
             m = np.array(exp)
-            m[:, 1:][m[:, 1:] == -999.25] = np.nan
+            m[:, 1:][m[:, 1:] == float(pt.get("null", "-999.25"))] = np.nan
             if pt.get("declared") == "more":
                 m = np.hstack([m, np.full((m.shape[0], 1), np.nan)])
             both_correct = got.shape == m.shape and np.array_equal(np.isnan(got), np.isnan(m)) and np.array_equal(
